@@ -1,11 +1,54 @@
 """C13 — see props/cachefile.py (operation-list tie, oracles) and DESIGN.md section 5."""
 import cachefile
 
-CONE = ["Model/CacheFs.v", "Model/FileFlow.v", "Proofs/CacheProofs.v", "Model/Exec.v", "Model/StepExec.v", "Model/FileExec.v", "Model/FileSpec.v", "Proofs/FileSafe.v", "Proofs/Refute.v"]
+CONE = ["Model/CacheFs.v", "Model/FileFlow.v", "Proofs/CacheProofs.v", "Model/Exec.v", "Model/StepExec.v", "Model/FileExec.v", "Model/FileSpec.v", "Proofs/FileSafe.v", "Model/FileLiveSpec.v", "Proofs/FileLive.v", "Proofs/Refute.v"]
+
+
+def progress_on_traces(res, hits):
+    """the statement proved in Proofs/FileLive.v (Model/FileLiveSpec.v: rest_ok) evaluated along kill-free single-session runs
+    of the real file executor: at every state where all started processes have exited and the loop is between two
+    iterations, every registered future is done or has a complete result file, and no taken call is lost"""
+    import core
+    import lockstep
+    rng = res.rng
+    n = 40 if res.tier == "quick" else 400
+    cases = []
+    while len(cases) < n:
+        c = lockstep.gen_fexec_case(rng)
+        if any(x.get("same_as") for x in c["calls"]) or not c["calls"]:
+            continue
+        if any(o[0] == "cancel" or (o[0] == "shutdown" and o[2]) for o in c["ops"]):
+            continue
+        c["schedule"] = lockstep.gen_schedule(rng, 3000)
+        c["step_limit"] = 3000
+        cases.append(c)
+    results = lockstep.run_cases(cases)
+    exprs, keep = [], []
+    for c, r in zip(cases, results):
+        if r["verdict"] not in ("done", "deadlock", "quiescent"):
+            continue
+        deps = ["[%s]" % "; ".join(str(d) for d in x.get("deps", [])) for x in c["calls"]]
+        canon = [str(i + 1) for i in range(len(c["calls"]))]
+        picks = [lockstep.tid_coq_f(t[1]) for t in r["trace"]]
+        exprs.append("(flive_case [%s] [%s] %d [%s] [%s])%%nat" % ("; ".join(deps), "; ".join(canon), len(c["calls"]),
+                     "; ".join(lockstep.op_coq(o) for o in c["ops"]), "; ".join(picks)))
+        keep.append(c)
+    outs = core.eval_strings(["Base.Dec", "Model.Exec", "Model.FileExec", "Model.FileLiveShow"], exprs, "C13_flive", shard=100)
+    res.cov["progress_statement_traces"] = len(outs)
+    res.cov["progress_statement_rest_states"] = sum(int(o.split()[1]) for o in outs if o.startswith("ok "))
+    res.cov["progress_statement_skipped"] = sum(1 for o in outs if o == "skip")
+    bad = [(c, o) for c, o in zip(keep, outs) if not (o.startswith("ok ") or o == "skip")]
+    if bad:
+        c, o = bad[0]
+        return [{"why": "a kill-free run of the real file executor reaches a rest state that violates the progress statement "
+                        "(Model/FileLiveSpec.v rest_ok; A = a registered future neither done nor with a complete result file, "
+                        "B = a taken call neither done nor registered): %s" % o,
+                 "case": {k: v for k, v in c.items() if k != "schedule"}, "schedule": c["schedule"][:400]}]
+    return []
 
 
 def run(res):
-    cachefile.cache_check(res, "C13", CONE)
+    cachefile.cache_check(res, "C13", CONE, extra=progress_on_traces)
 
 
 def replay(path):
